@@ -142,7 +142,12 @@ impl Scenario for C05 {
             Ok(g) => g,
             Err(e) => return e,
         };
-        let twin_g = match build(spec, false) {
+        // the twin (the definition of the native word stream) lives in another slot than the generator
+        // under test: what a generator returns may not depend on where it lives
+        crate::gens::set_place(spec.place.wrapping_add(2));
+        let twin_g = build(spec, false);
+        crate::gens::set_place(spec.place);
+        let twin_g = match twin_g {
             Ok(g) => g,
             Err(e) => return e,
         };
